@@ -101,8 +101,9 @@ def make_tensor(name, dtype, shape, form, rot=0, scratch=None, meta=True):
             t.raw_data = raw
     if meta:
         t.doc_string = f"doc of {name} ({DTYPE_NAMES[dtype]}, {form})"
-        e = t.metadata_props.add()
-        e.key, e.value = "tensor_key", f"tensor_val_{name}"
+        if _IR10[0]:
+            e = t.metadata_props.add()
+            e.key, e.value = "tensor_key", f"tensor_val_{name}"
     return t
 
 
@@ -125,7 +126,12 @@ def _fill_typed(t, dtype, raw, n):
         t.int32_data.extend(int.from_bytes(raw[i:i + w], "little") for i in range(0, len(raw), w))
 
 
+_IR10 = [True]      # node / graph / function / tensor / value metadata_props, function value_info and overload exist since IR 10
+
+
 def _meta(obj, tag):
+    if not _IR10[0] and obj.DESCRIPTOR.name != "ModelProto":
+        return
     e = obj.metadata_props.add()
     e.key, e.value = f"k_{tag}", f"v_{tag}"
     e = obj.metadata_props.add()
@@ -173,8 +179,9 @@ def make_functions(opset, p):
         if overload:
             f.overload = overload
         _meta(f, f"func_{name}{overload}")
-        v = f.value_info.add()
-        v.CopyFrom(_vi(nodes[0].output[0], DT.FLOAT, None, tag=f"fvi_{name}"))
+        if _IR10[0]:
+            v = f.value_info.add()
+            v.CopyFrom(_vi(nodes[0].output[0], DT.FLOAT, None, tag=f"fvi_{name}"))
         return f
 
     k = helper.make_tensor("kv", DT.FLOAT, [], [float(p.get("fk", 2.0))])
@@ -193,7 +200,7 @@ def make_functions(opset, p):
         _node("Scale", ["ab"], ["s"], "fc_call", domain="vf.fn"),
         leaky], attr_protos=[alpha_default], extra_ops=[("vf.fn", 1)]))
     fs.append(fn("Orphan", ["a"], ["r"], [_node("Neg", ["a"], ["n"], "fo_neg"), _node("Abs", ["n"], ["r"], "fo_abs")]))
-    if p.get("overloads"):
+    if p.get("overloads") and _IR10[0]:
         fs.append(fn("Twin", ["a"], ["r"], [_node("Relu", ["a"], ["r"], "ft_relu")], overload="v1"))
         fs.append(fn("Twin", ["a"], ["r"], [_node("Sigmoid", ["a"], ["r"], "ft_sig")], overload="v2"))
     return fs
@@ -204,6 +211,7 @@ def build(p: dict, scratch: str):
     opset = p["opset"]
     irv = p.get("ir_version") or IR_FOR_OPSET[opset]
     feats = set(p.get("features", []))
+    _IR10[0] = irv >= 10
     d0 = "N" if p.get("sym") else 2
     nodes, inits, vinfo, outputs = [], [], [], []
     inputs = [_vi("x", DT.FLOAT, [d0, 3], tag="in_x"), _vi("y", DT.FLOAT, [d0, 3], tag="in_y")]
@@ -219,7 +227,8 @@ def build(p: dict, scratch: str):
 
     # --- foldable constants
     if "fold" in feats:
-        nodes.append(_node("Constant", [], ["c1"], "n_c1", value=helper.make_tensor("c1v", DT.FLOAT, [3], [1.0, 2.0, 3.0])))
+        nodes.append(_node("Constant", [], ["c1"], "n_c1", value=make_tensor("c1v", 1, [3], p.get("bias_form", "raw")
+                                                                             if p.get("bias_form") != "external" else "typed", rot=5)))
         nodes.append(_node("Constant", [], ["c2"], "n_c2", value_floats=[0.5, 0.25, 4.0]))
         nodes.append(_node("Add", ["c1", "c2"], ["c3"], "n_c3"))
         step("Mul", [cur, "c3"], "folded")
@@ -242,7 +251,7 @@ def build(p: dict, scratch: str):
         fl = make_functions(opset, p)
         step("Chain", [cur, "y"], "call_chain", domain="vf.fn", alpha=0.5)
         step("Scale", [cur], "call_scale", domain="vf.fn")
-        if p.get("overloads"):
+        if p.get("overloads") and irv >= 10:
             step("Twin", [cur], "call_twin", domain="vf.fn")
             nodes[-1].overload = "v2"
         if "aside_functions" in feats:
@@ -310,9 +319,15 @@ def build(p: dict, scratch: str):
     _meta(m, "model")
     if p.get("explicit_defaults"):
         # fields explicitly set to their default value (the property lets these vanish)
-        nodes_ = m.graph.node
-        nodes_[0].domain = ""
-        m.graph.initializer[0].data_location = TensorProto.DEFAULT
+        for n_ in m.graph.node:
+            if n_.domain == "":
+                n_.domain = ""
+                break
+        for t_ in m.graph.initializer:
+            if t_.data_location != TensorProto.EXTERNAL:
+                t_.data_location = TensorProto.DEFAULT
+                break
+        m.graph.value_info[0].doc_string = ""
     info = {"aside": len(aside), "functions": len(functions), "inits": len(inits), "nodes": len(nodes)}
     return m, aside, info
 
